@@ -235,12 +235,14 @@ where
     // We accumulate all validity checks into single branches at the end in order to
     // keep the loop itself branchless.
     let mut laps_or_zeros = 0usize;
+    let mut num_symbols = 0usize;
     let mut accum = Probability::zero();
 
     for probability in probabilities {
         let old_accum = accum;
         accum = accum.wrapping_add(probability.borrow());
         laps_or_zeros += (accum <= old_accum) as usize;
+        num_symbols += 1;
         let symbol = symbols.next().ok_or(())?;
         operation(symbol, old_accum, *probability.borrow())?;
     }
@@ -248,13 +250,25 @@ where
     let total = wrapping_pow2::<Probability>(PRECISION);
 
     if infer_last_probability {
-        if accum >= total || laps_or_zeros != 0 {
+        // The provided probabilities must add up to a nonzero value below `total` (nonzero
+        // because we don't support degenerate distributions that put all probability mass on
+        // the inferred symbol). If `PRECISION == Probability::BITS` then `total` wraps to zero
+        // and every `accum` that was reached without wrapping around is below the true total.
+        if laps_or_zeros != 0
+            || accum == Probability::zero()
+            || (PRECISION != Probability::BITS && accum >= total)
+        {
             return Err(());
         }
         let symbol = symbols.next().ok_or(())?;
         let probability = total.wrapping_sub(&accum);
         operation(symbol, accum, probability)?;
-    } else if accum != total || laps_or_zeros != (PRECISION == Probability::BITS) as usize {
+    } else if accum != total
+        || laps_or_zeros != (PRECISION == Probability::BITS) as usize
+        || num_symbols < 2
+    {
+        // (`num_symbols < 2` rejects a single symbol that carries the entire probability mass,
+        // which would also slip through as a zero probability if `total` wraps to zero.)
         return Err(());
     }
 
